@@ -760,6 +760,9 @@ class OdeSystem(object):
         if D.ar_numpy.abs(self.tf - new_t0) <= D.epsilon(self.__y[self.counter].dtype):
             raise ValueError("The start time of the integration cannot be greater than or equal to {}!".format(self.tf))
         self.__t0 = new_t0
+        if self.counter == 0:
+            # nothing has been recorded yet: the system sits at its start time
+            self.__t[0] = new_t0
         self.__fix_dt_dir(self.tf, self.t0)
 
     @property
@@ -971,6 +974,8 @@ class OdeSystem(object):
         """Resets the system to the initial time."""
         self.counter = 0
         self.__trim_soln_space()
+        # (the start time may have been changed through the t0 property since the system was built)
+        self.__t[0] = self.__t0
         self.__sol = DenseOutput(None, None)
         self.dt = self.__dt0
         self.equ_rhs.nfev = 0
